@@ -351,8 +351,9 @@ def _check_connective_subscription(check, an: Analysis):
                     held = [t for t in body if t.kind == 'test'
                             and t.get('key') == ('truth', var)]
                     entered = [x for x in body if x.kind == 'call' and isinstance(
-                        x.node, ast.Call) and isinstance(x.node.func, ast.Attribute)
-                        and x.node.func.attr == 'enter_context' and x.node.args
+                        x.node, ast.Call) and x.node.args
+                        and rules.value_text(path, start + body.index(x) + i,
+                                             x.node.func).endswith('.enter_context')
                         and rules.value_text(path, start + body.index(x) + i,
                                              x.node.args[0]) == '%s.__subscription__()' % var]
                     if not held:
